@@ -55,7 +55,7 @@ class C10(Prop):
         await self.rig.close()
 
     def cases(self, tier, seed, shard, nshards):
-        n = {"quick": 2_800, "thorough": 28_000}[tier]
+        n = {"quick": 2_800, "thorough": 280_000}[tier]
         for i in range(shard, n, nshards):
             yield {"i": i, "seed": seed}
 
